@@ -1,6 +1,6 @@
 """C19: counted repetition and the raw combinators obey their stated bounds."""
 from ..coqbuild import check_property_proofs
-from .. import tb, core, rtcat
+from .. import tb, core, rtcat, skipn
 
 _shape = {}
 
@@ -86,5 +86,11 @@ def check(ctx):
                 "{string, choice, nested repetition, stack op}; [T;N], pairs, optionals, SkipChar, AtomicRepeat; x all strings up to "
                 "the family's length bound; oracles: reference interpreter for all, independent counting spec for string/choice "
                 "elements; non-trivial = the run consumed input; distinct = (shape, input)" % (3 if ctx.tier == "quick" else 4))
+    # skip counts >= 2 and skip nodes that are not idempotent: outside the Coq model (its skip argument is off / on / inherited),
+    # decided against the counting specification of the property itself
+    skipn.check_skip_counts(ctx, 6 if ctx.tier == "quick" else 8)
+    ctx.rule += ("; explicit skip counts: RepMin / RepMinMax / RepExact / Rep / RepOnce / Seq2 / Seq3 / repetition of sequences with SKIP in 0..3 "
+                 "and the bounded skips \" \"? and \" \"{0,2}, x all strings over {a, b, blank} up to length %d, parse and check vs the counting "
+                 "specification" % (6 if ctx.tier == "quick" else 8))
     ctx.coverage["exhaustive"] = True
     return ctx.finish(level="proof", trusted_base=tb.BASE)
